@@ -1,5 +1,553 @@
-//! HTTP part of the rig (C08 HTTP binding, C20 service level) -- built after the DNS part.
-pub fn http(_args: &[String]) {
-    eprintln!("rig http: not built yet");
-    std::process::exit(2)
+//! The "full" part of the rig: the real `DhcpService` and `http::run` in the private
+//! network + mount namespace.  DHCP clients speak through a packet socket on one end of a
+//! veth pair (frames built and parsed here, not with the code under test); HTTP clients
+//! connect over TCP (IPv4 and IPv6, several source addresses) and over unix sockets (path
+//! and abstract listeners; unnamed, path-bound and abstract-bound clients).  The lease
+//! table is read (and aged) through the harness's own SQLite connection.
+use crate::dnswalk::digest;
+use crate::rig::*;
+use crate::util::*;
+use serde_json::{Value, json};
+use std::sync::Arc;
+
+const SERVER_MAC: [u8; 6] = [2, 0, 0, 0, 1, 1];
+const CLIENT_IF_MAC: [u8; 6] = [2, 0, 0, 0, 1, 2];
+pub const TCP4: &str = "127.0.0.1:9968";
+pub const TCP6: &str = "[::1]:9968";
+pub const TCPDUAL: &str = "[::]:9969";
+pub const UNIX_PATH: &str = "/var/lib/erbium/control";
+pub const UNIX_ABSTRACT: &str = "erbium-verif";
+const DB: &str = "/var/lib/erbium/leases.sqlite";
+
+pub fn setup_veth() {
+    let sh = |c: &str| {
+        let ok = std::process::Command::new("sh").args(["-c", c]).status().map(|s| s.success()).unwrap_or(false);
+        if !ok {
+            eprintln!("rig: namespace setup failed: {}", c);
+            std::process::exit(3);
+        }
+    };
+    sh("ip link add veth0 type veth peer name veth1");
+    sh("ip link set veth0 address 02:00:00:00:01:01 && ip link set veth1 address 02:00:00:00:01:02");
+    sh("ip addr add 192.0.2.1/24 dev veth0");
+    sh("sysctl -q -w net.ipv6.conf.veth0.disable_ipv6=1 net.ipv6.conf.veth1.disable_ipv6=1 >/dev/null 2>&1 || true");
+    sh("ip link set veth0 up && ip link set veth1 up");
+}
+
+// ------------------------------------------------------------ packet socket --
+fn csum(data: &[u8]) -> u16 {
+    let mut s: u32 = 0;
+    for c in data.chunks(2) {
+        s += ((c[0] as u32) << 8) | (*c.get(1).unwrap_or(&0) as u32);
+    }
+    while s >> 16 != 0 {
+        s = (s & 0xffff) + (s >> 16);
+    }
+    !(s as u16)
+}
+
+/// Ethernet + IPv4 + UDP around a payload (RFC 894 / 791 / 768)
+pub fn udp_frame(srcmac: [u8; 6], dstmac: [u8; 6], src: [u8; 4], sport: u16, dst: [u8; 4], dport: u16, payload: &[u8]) -> Vec<u8> {
+    let ulen = 8 + payload.len();
+    let mut udp = vec![];
+    udp.extend(sport.to_be_bytes());
+    udp.extend(dport.to_be_bytes());
+    udp.extend((ulen as u16).to_be_bytes());
+    udp.extend([0, 0]);
+    udp.extend(payload);
+    let mut pseudo = vec![];
+    pseudo.extend(src);
+    pseudo.extend(dst);
+    pseudo.extend([0, 17]);
+    pseudo.extend((ulen as u16).to_be_bytes());
+    pseudo.extend(&udp);
+    let c = match csum(&pseudo) {
+        0 => 0xffff,
+        x => x,
+    };
+    udp[6..8].copy_from_slice(&c.to_be_bytes());
+    let mut ip = vec![0x45, 0];
+    ip.extend(((20 + ulen) as u16).to_be_bytes());
+    ip.extend([0, 0, 0, 0, 64, 17, 0, 0]);
+    ip.extend(src);
+    ip.extend(dst);
+    let c = csum(&ip);
+    ip[10..12].copy_from_slice(&c.to_be_bytes());
+    let mut f = vec![];
+    f.extend(dstmac);
+    f.extend(srcmac);
+    f.extend([8, 0]);
+    f.extend(ip);
+    f.extend(udp);
+    f
+}
+
+pub struct PacketSock {
+    fd: i32,
+}
+impl PacketSock {
+    pub fn open(ifname: &str) -> PacketSock {
+        unsafe {
+            let fd = libc::socket(libc::AF_PACKET, libc::SOCK_RAW, (libc::ETH_P_ALL as u16).to_be() as i32);
+            if fd < 0 {
+                eprintln!("rig: cannot open a packet socket");
+                std::process::exit(3);
+            }
+            let name = std::ffi::CString::new(ifname).unwrap();
+            let idx = libc::if_nametoindex(name.as_ptr());
+            let mut sll: libc::sockaddr_ll = std::mem::zeroed();
+            sll.sll_family = libc::AF_PACKET as u16;
+            sll.sll_protocol = (libc::ETH_P_ALL as u16).to_be();
+            sll.sll_ifindex = idx as i32;
+            if libc::bind(fd, &sll as *const _ as *const libc::sockaddr, std::mem::size_of::<libc::sockaddr_ll>() as u32) != 0 {
+                eprintln!("rig: cannot bind the packet socket to {}", ifname);
+                std::process::exit(3);
+            }
+            let tv = libc::timeval { tv_sec: 0, tv_usec: 20_000 };
+            libc::setsockopt(fd, libc::SOL_SOCKET, libc::SO_RCVTIMEO, &tv as *const _ as *const libc::c_void, std::mem::size_of::<libc::timeval>() as u32);
+            PacketSock { fd }
+        }
+    }
+    pub fn send(&self, frame: &[u8]) -> bool {
+        unsafe { libc::send(self.fd, frame.as_ptr() as *const libc::c_void, frame.len(), 0) == frame.len() as isize }
+    }
+    /// the next UDP datagram from port 67 to port 68 seen on the interface within `ms`: (ethernet header, payload)
+    pub fn recv_dhcp(&self, ms: u64) -> Option<(Vec<u8>, Vec<u8>)> {
+        let end = std::time::Instant::now() + std::time::Duration::from_millis(ms);
+        let mut buf = vec![0u8; 4096];
+        while std::time::Instant::now() < end {
+            let n = unsafe { libc::recv(self.fd, buf.as_mut_ptr() as *mut libc::c_void, buf.len(), 0) };
+            if n < 42 {
+                continue;
+            }
+            let f = &buf[..n as usize];
+            if f[12] != 8 || f[13] != 0 || f[14] >> 4 != 4 || f[23] != 17 {
+                continue;
+            }
+            let ihl = ((f[14] & 15) as usize) * 4;
+            let u = 14 + ihl;
+            if f.len() < u + 8 {
+                continue;
+            }
+            let (sp, dp) = (u16::from_be_bytes([f[u], f[u + 1]]), u16::from_be_bytes([f[u + 2], f[u + 3]]));
+            if sp != 67 || dp != 68 {
+                continue;
+            }
+            let ulen = u16::from_be_bytes([f[u + 4], f[u + 5]]) as usize;
+            let endp = (u + ulen).min(f.len());
+            return Some((f[..u].to_vec(), f[u + 8..endp].to_vec()));
+        }
+        None
+    }
+    /// drop anything queued
+    pub fn flush(&self) {
+        while self.recv_dhcp(1).is_some() {}
+    }
+}
+
+// -------------------------------------------------------------- DHCP client --
+/// a BOOTREQUEST with the given message type and options (codes with raw values)
+pub fn dhcp_msg(xid: u32, chaddr: &[u8; 6], broadcast: bool, ciaddr: [u8; 4], opts: &[(u8, Vec<u8>)]) -> Vec<u8> {
+    let mut d = vec![1u8, 1, 6, 0];
+    d.extend(xid.to_be_bytes());
+    d.extend([0, 0]);
+    d.extend(if broadcast { [0x80u8, 0] } else { [0, 0] });
+    d.extend(ciaddr);
+    d.extend([0u8; 12]);
+    d.extend(chaddr);
+    d.extend([0u8; 10]);
+    d.extend([0u8; 192]);
+    d.extend([0x63, 0x82, 0x53, 0x63]);
+    for (c, v) in opts {
+        // values longer than 255 octets are split (RFC 3396)
+        if v.is_empty() {
+            d.extend([*c, 0]);
+        }
+        for chunk in v.chunks(255) {
+            d.push(*c);
+            d.push(chunk.len() as u8);
+            d.extend(chunk);
+        }
+    }
+    d.push(255);
+    d
+}
+
+/// (message type, yiaddr, options) of a reply, walked here
+fn reply_summary(p: &[u8]) -> Value {
+    if p.len() < 240 {
+        return json!({"ok": false});
+    }
+    let mut opts: std::collections::BTreeMap<u8, Vec<u8>> = Default::default();
+    let mut i = 240;
+    while i < p.len() {
+        let c = p[i];
+        if c == 255 {
+            break;
+        }
+        if c == 0 {
+            i += 1;
+            continue;
+        }
+        if i + 1 >= p.len() {
+            break;
+        }
+        let l = p[i + 1] as usize;
+        if i + 2 + l > p.len() {
+            break;
+        }
+        opts.entry(c).or_default().extend(&p[i + 2..i + 2 + l]);
+        i += 2 + l;
+    }
+    let u32of = |c: u8| opts.get(&c).filter(|v| v.len() == 4).map(|v| u32::from_be_bytes([v[0], v[1], v[2], v[3]]) as u64);
+    json!({"ok": true, "op": p[0], "xid": u32::from_be_bytes([p[4], p[5], p[6], p[7]]) as u64, "yiaddr": p[16..20], "chaddr": p[28..34],
+           "mtype": opts.get(&53).and_then(|v| v.first().copied()).map(|x| x as i64).unwrap_or(-1), "lease": u32of(51).map(|x| x as i64).unwrap_or(-1),
+           "serverid": opts.get(&54).cloned().unwrap_or_default()})
+}
+
+// ------------------------------------------------------------- HTTP clients --
+fn parse_http(raw: &[u8]) -> (i64, Vec<u8>) {
+    let head_end = raw.windows(4).position(|w| w == b"\r\n\r\n");
+    let status = std::str::from_utf8(&raw[..raw.len().min(12)]).ok().and_then(|s| s.split(' ').nth(1)).and_then(|x| x.parse::<i64>().ok()).unwrap_or(-1);
+    match head_end {
+        Some(h) => (status, raw[h + 4..].to_vec()),
+        None => (status, vec![]),
+    }
+}
+
+async fn http_tcp(dst: &str, src: &str, method: &str, path: &str) -> (i64, Vec<u8>, String) {
+    use tokio::io::{AsyncReadExt, AsyncWriteExt};
+    let dst: std::net::SocketAddr = dst.parse().unwrap();
+    let src: std::net::IpAddr = src.parse().unwrap();
+    let sock = if dst.is_ipv4() { tokio::net::TcpSocket::new_v4() } else { tokio::net::TcpSocket::new_v6() }.unwrap();
+    if let Err(e) = sock.bind(std::net::SocketAddr::new(src, 0)) {
+        return (-1, vec![], format!("bind {}: {}", src, e));
+    }
+    let mut s = match tokio::time::timeout(std::time::Duration::from_secs(2), sock.connect(dst)).await {
+        Ok(Ok(s)) => s,
+        Ok(Err(e)) => return (-1, vec![], format!("connect: {}", e)),
+        Err(_) => return (-1, vec![], "connect timed out".into()),
+    };
+    let req = format!("{} {} HTTP/1.1\r\nHost: erbium\r\nConnection: close\r\n\r\n", method, path);
+    if s.write_all(req.as_bytes()).await.is_err() {
+        return (-1, vec![], "write failed".into());
+    }
+    let mut raw = vec![];
+    let _ = tokio::time::timeout(std::time::Duration::from_secs(3), s.read_to_end(&mut raw)).await;
+    let (st, body) = parse_http(&raw);
+    (st, body, String::new())
+}
+
+/// unix stream client; `server` = path or "@name"; `bind` = None (unnamed), Some(path) or Some("@name")
+fn http_unix(server: &str, bind: Option<&str>, method: &str, path: &str) -> (i64, Vec<u8>, String) {
+    fn sun(name: &str) -> (libc::sockaddr_un, u32) {
+        let mut a: libc::sockaddr_un = unsafe { std::mem::zeroed() };
+        a.sun_family = libc::AF_UNIX as u16;
+        let bytes = name.as_bytes();
+        let off = if let Some(abs) = name.strip_prefix('@') {
+            for (i, b) in abs.bytes().enumerate() {
+                a.sun_path[1 + i] = b as libc::c_char;
+            }
+            1 + abs.len()
+        } else {
+            for (i, b) in bytes.iter().enumerate() {
+                a.sun_path[i] = *b as libc::c_char;
+            }
+            bytes.len() + 1
+        };
+        (a, (std::mem::size_of::<libc::sa_family_t>() + off) as u32)
+    }
+    unsafe {
+        let fd = libc::socket(libc::AF_UNIX, libc::SOCK_STREAM, 0);
+        if fd < 0 {
+            return (-1, vec![], "socket".into());
+        }
+        let tv = libc::timeval { tv_sec: 2, tv_usec: 0 };
+        libc::setsockopt(fd, libc::SOL_SOCKET, libc::SO_RCVTIMEO, &tv as *const _ as *const libc::c_void, std::mem::size_of::<libc::timeval>() as u32);
+        libc::setsockopt(fd, libc::SOL_SOCKET, libc::SO_SNDTIMEO, &tv as *const _ as *const libc::c_void, std::mem::size_of::<libc::timeval>() as u32);
+        if let Some(b) = bind {
+            if !b.starts_with('@') {
+                let _ = std::fs::remove_file(b);
+            }
+            let (a, l) = sun(b);
+            if libc::bind(fd, &a as *const _ as *const libc::sockaddr, l) != 0 {
+                libc::close(fd);
+                return (-1, vec![], format!("bind {}: {}", b, std::io::Error::last_os_error()));
+            }
+        }
+        let (a, l) = sun(server);
+        if libc::connect(fd, &a as *const _ as *const libc::sockaddr, l) != 0 {
+            let e = std::io::Error::last_os_error();
+            libc::close(fd);
+            return (-1, vec![], format!("connect {}: {}", server, e));
+        }
+        let req = format!("{} {} HTTP/1.1\r\nHost: erbium\r\nConnection: close\r\n\r\n", method, path);
+        libc::send(fd, req.as_ptr() as *const libc::c_void, req.len(), libc::MSG_NOSIGNAL);
+        let mut raw = vec![];
+        let mut buf = vec![0u8; 65536];
+        loop {
+            let n = libc::recv(fd, buf.as_mut_ptr() as *mut libc::c_void, buf.len(), 0);
+            if n <= 0 {
+                break;
+            }
+            raw.extend(&buf[..n as usize]);
+        }
+        libc::close(fd);
+        let (st, body) = parse_http(&raw);
+        (st, body, if raw.is_empty() { "no response".into() } else { String::new() })
+    }
+}
+
+// ------------------------------------------------------------- lease table --
+/// rows of the lease table through the harness's own connection: [ip octets, client id digest, client id length, start, expiry]
+fn sql_rows(base: i64) -> Result<Vec<Value>, String> {
+    let c = rusqlite::Connection::open_with_flags(DB, rusqlite::OpenFlags::SQLITE_OPEN_READ_WRITE).map_err(|e| e.to_string())?;
+    let _ = c.busy_timeout(std::time::Duration::from_secs(2));
+    let mut st = c.prepare("SELECT address, clientid, start, expiry FROM leases").map_err(|e| e.to_string())?;
+    let rows = st
+        .query_map([], |r| Ok((r.get::<_, String>(0)?, r.get::<_, Vec<u8>>(1)?, r.get::<_, i64>(2)?, r.get::<_, i64>(3)?)))
+        .map_err(|e| e.to_string())?
+        .filter_map(|r| r.ok())
+        .map(|(a, cid, s, e)| {
+            let ip: std::net::Ipv4Addr = a.parse().unwrap_or(std::net::Ipv4Addr::UNSPECIFIED);
+            json!([ip.octets(), digest(&cid), cid.len(), s - base, e - base])
+        })
+        .collect();
+    Ok(rows)
+}
+
+/// move every lease `secs` into the past (the harness's clock for expiry)
+fn sql_age(secs: i64) -> Result<(), String> {
+    let c = rusqlite::Connection::open_with_flags(DB, rusqlite::OpenFlags::SQLITE_OPEN_READ_WRITE).map_err(|e| e.to_string())?;
+    let _ = c.busy_timeout(std::time::Duration::from_secs(2));
+    c.execute("UPDATE leases SET start = start - ?1, expiry = expiry - ?1", [secs]).map_err(|e| e.to_string())?;
+    Ok(())
+}
+
+fn hexbytes(v: &Value) -> Vec<u8> {
+    unhex(v.as_str().unwrap_or(""))
+}
+
+fn perm_of(path: &str) -> &'static str {
+    match path {
+        "/" => "http",
+        "/metrics" => "http-metrics",
+        "/api/v1/leases.json" => "http-leases",
+        _ => "other",
+    }
+}
+
+fn metric(body: &str, name: &str) -> i64 {
+    body.lines().find(|l| l.starts_with(name) && l[name.len()..].starts_with(' ')).and_then(|l| l[name.len() + 1..].trim().parse::<f64>().ok()).map(|x| x as i64).unwrap_or(-1)
+}
+
+/// `rig full`: cases = {acls: rule list or null, steps: [...]}
+pub fn http(args: &[String]) {
+    let cases = read_ndjson(&arg(args, "--cases").expect("--cases"));
+    let mut out = Trace::create(&arg(args, "--out").expect("--out"));
+    setup_namespace();
+    setup_veth();
+    let rt = tokio::runtime::Builder::new_multi_thread().worker_threads(4).enable_all().build().unwrap();
+    rt.block_on(async {
+        let base = now_secs();
+        let yaml = format!("addresses: [192.0.2.1/24]\napi-listeners: [\"{}\", \"{}\", \"{}\", \"{}\", \"@{}\"]\n{}", TCP4, TCP6, TCPDUAL, UNIX_PATH, UNIX_ABSTRACT, OPEN_ACLS);
+        let conf = erbium::config::verif_load_config_from_string(&yaml).unwrap_or_else(|e| {
+            eprintln!("rig: service configuration rejected: {}\n{}", e, yaml);
+            std::process::exit(2)
+        });
+        let netinfo = erbium_net::netinfo::SharedNetInfo::new().await;
+        tokio::time::sleep(std::time::Duration::from_millis(300)).await;
+        let dhcp = match erbium::dhcp::DhcpService::new(netinfo.clone(), conf.clone()).await {
+            Ok(d) => Arc::new(d),
+            Err(e) => {
+                eprintln!("rig: cannot start the DHCP service: {}", e);
+                std::process::exit(3)
+            }
+        };
+        {
+            let d = dhcp.clone();
+            tokio::spawn(async move {
+                let _ = d.run().await;
+            });
+        }
+        if let Err(e) = erbium::http::run(dhcp.clone(), conf.clone()).await {
+            eprintln!("rig: cannot start the API listeners: {}", e);
+            std::process::exit(3)
+        }
+        tokio::time::sleep(std::time::Duration::from_millis(100)).await;
+        let sock = PacketSock::open("veth1");
+        let mut xid = 0x1000u32;
+        let mut offered: std::collections::HashMap<[u8; 6], [u8; 4]> = Default::default();
+        for (ci, case) in cases.iter().enumerate() {
+            let rules = case["acls"].as_array().cloned();
+            let acls = match &rules {
+                Some(r) => crate::acl::render_acls(r),
+                None => OPEN_ACLS.to_string(),
+            };
+            match erbium::config::verif_load_config_from_string(&acls) {
+                Ok(l) => {
+                    let mut a = conf.write().await;
+                    let mut b = l.write().await;
+                    std::mem::swap(&mut a.acls, &mut b.acls);
+                }
+                Err(e) => {
+                    out.emit(json!({"ev":"cfg_rejected","case":ci,"err":e.to_string()}));
+                    continue;
+                }
+            }
+            out.emit(json!({"ev":"case","case":ci,"open":rules.is_none(),"meta":if case["meta"].is_null() { json!({}) } else { case["meta"].clone() }}));
+            for step in case["steps"].as_array().unwrap_or(&vec![]) {
+                match step["op"].as_str().unwrap_or("") {
+                    "dhcp" => {
+                        // one message from a client; the reply (if any) is recorded
+                        xid += 1;
+                        let chaddr: [u8; 6] = hexbytes(&step["chaddr"]).try_into().unwrap_or([2, 0, 0, 0, 9, 9]);
+                        let mut opts: Vec<(u8, Vec<u8>)> = vec![(53, vec![step["mtype"].as_u64().unwrap_or(1) as u8])];
+                        if !step["cid"].is_null() {
+                            opts.push((61, hexbytes(&step["cid"])));
+                        }
+                        if !step["host"].is_null() {
+                            opts.push((12, hexbytes(&step["host"])));
+                        }
+                        if let Some(r) = step["req"].as_array() {
+                            opts.push((50, r.iter().map(|x| x.as_u64().unwrap() as u8).collect()));
+                        } else if step["req"] == "offered" {
+                            if let Some(a) = offered.get(&chaddr) {
+                                opts.push((50, a.to_vec()));
+                            }
+                        }
+                        if let Some(s) = step["sid"].as_array() {
+                            opts.push((54, s.iter().map(|x| x.as_u64().unwrap() as u8).collect()));
+                        }
+                        opts.push((55, vec![1, 3, 6, 15, 51, 54]));
+                        let payload = match step["raw"].as_str() {
+                            Some(h) => unhex(h),
+                            None => dhcp_msg(xid, &chaddr, step["bcast"].as_bool().unwrap_or(true), [0; 4], &opts),
+                        };
+                        let frame = udp_frame(chaddr, [0xff; 6], [0, 0, 0, 0], 68, [255, 255, 255, 255], 67, &payload);
+                        let reply = tokio::task::block_in_place(|| {
+                            sock.flush();
+                            if !sock.send(&frame) {
+                                return None;
+                            }
+                            sock.recv_dhcp(step["wait_ms"].as_u64().unwrap_or(800))
+                        });
+                        let mut e = json!({"ev":"dhcp","case":ci,"chaddr":chaddr,"mtype":step["mtype"].as_u64().unwrap_or(1),"xid":xid,"len":payload.len(),"tag":step["tag"].as_str().unwrap_or("")});
+                        match reply {
+                            Some((eth, p)) => {
+                                if p.len() >= 20 && p[16..20] != [0, 0, 0, 0] {
+                                    offered.insert(chaddr, [p[16], p[17], p[18], p[19]]);
+                                }
+                                e["replied"] = json!(true);
+                                e["reply"] = reply_summary(&p);
+                                e["dstmac"] = json!(eth[0..6]);
+                                e["srcmac_ok"] = json!(eth[6..12] == SERVER_MAC);
+                            }
+                            None => {
+                                e["replied"] = json!(false);
+                                e["reply"] = json!({"ok": false});
+                            }
+                        }
+                        out.emit(e);
+                    }
+                    "insert" => {
+                        // a row as an older version of erbium (or anything else sharing the file) may have left it
+                        let r = (|| -> Result<(), String> {
+                            let c = rusqlite::Connection::open_with_flags(DB, rusqlite::OpenFlags::SQLITE_OPEN_READ_WRITE).map_err(|e| e.to_string())?;
+                            let _ = c.busy_timeout(std::time::Duration::from_secs(2));
+                            let opts: Option<Vec<u8>> = step["options"].as_str().map(unhex);
+                            let now = now_secs();
+                            c.execute("INSERT OR REPLACE INTO leases (address, chaddr, clientid, start, expiry, options) VALUES (?1, ?2, ?3, ?4, ?5, ?6)",
+                                      rusqlite::params![step["ip"].as_str().unwrap_or("192.0.2.250"), hexbytes(&step["chaddr"]), hexbytes(&step["cid"]),
+                                                        now + step["start"].as_i64().unwrap_or(0), now + step["expiry"].as_i64().unwrap_or(600), opts]).map_err(|e| e.to_string())?;
+                            Ok(())
+                        })();
+                        if let Err(e) = r {
+                            out.emit(json!({"ev":"tool_error","what":format!("insert: {}", e)}));
+                        }
+                    }
+                    "age" => {
+                        if let Err(e) = sql_age(step["secs"].as_i64().unwrap_or(0)) {
+                            out.emit(json!({"ev":"tool_error","what":format!("age: {}", e)}));
+                        }
+                    }
+                    "sleep" => tokio::time::sleep(std::time::Duration::from_millis(step["ms"].as_u64().unwrap_or(100))).await,
+                    "http" => {
+                        let path = step["path"].as_str().unwrap_or("/");
+                        let method = step["method"].as_str().unwrap_or("GET");
+                        let listener = step["listener"].as_str().unwrap_or("tcp4");
+                        let client = &step["client"];
+                        let rows_before = sql_rows(base).unwrap_or_default();
+                        let t0 = now_secs() - base;
+                        let (status, body, err) = match listener {
+                            "tcp4" => http_tcp(TCP4, client["src"].as_str().unwrap_or("127.0.0.1"), method, path).await,
+                            "tcp6" => http_tcp(TCP6, client["src"].as_str().unwrap_or("::1"), method, path).await,
+                            "dual4" => http_tcp("127.0.0.1:9969", client["src"].as_str().unwrap_or("127.0.0.1"), method, path).await,
+                            "dual6" => http_tcp("[::1]:9969", client["src"].as_str().unwrap_or("::1"), method, path).await,
+                            "unixpath" | "abstract" => {
+                                let server = if listener == "unixpath" { UNIX_PATH.to_string() } else { format!("@{}", UNIX_ABSTRACT) };
+                                let bind = client["bind"].as_str().map(|s| s.to_string());
+                                let (m, p) = (method.to_string(), path.to_string());
+                                tokio::task::block_in_place(move || http_unix(&server, bind.as_deref(), &m, &p))
+                            }
+                            _ => (-1, vec![], "unknown listener".into()),
+                        };
+                        let t1 = now_secs() - base;
+                        let rows_after = sql_rows(base).unwrap_or_default();
+                        let np = {
+                            let mut p = PANICS.lock().unwrap();
+                            let n = p.len();
+                            let first = p.first().cloned().unwrap_or_default();
+                            p.clear();
+                            (n, first)
+                        };
+                        // the same event shape as the function-level ACL driver, so AclTrace judges it
+                        if let Some(r) = rules.as_ref().filter(|_| perm_of(path) != "other") {
+                            out.emit(json!({"ev":"acl","binding":"http","rules":r,"client":client["abs"],"op":perm_of(path),"outcome": if status == 200 || status == 403 || status == 404 { "ok" } else { "noresponse" },
+                                            "granted": status == 200 || status == 404,"forwarded":false,"answered":status > 0,"status":status,"listener":listener,"path":path,"err":err,"panics":np.0,"first_panic":np.1}));
+                        }
+                        if path == "/api/v1/leases.json" && method == "GET" {
+                            let text = String::from_utf8_lossy(&body).to_string();
+                            let parsed: Result<Value, _> = serde_json::from_slice(&body);
+                            let entries: Vec<Value> = match &parsed {
+                                Ok(v) => v["leases"].as_array().map(|a| a.iter().map(|l| {
+                                    let ip: std::net::Ipv4Addr = l["ip"].as_str().unwrap_or("").parse().unwrap_or(std::net::Ipv4Addr::UNSPECIFIED);
+                                    let cid: Vec<u8> = l["client_id"].as_str().unwrap_or("").split(':').filter(|x| !x.is_empty()).map(|x| u8::from_str_radix(x, 16).unwrap_or(0)).collect();
+                                    json!([ip.octets(), digest(&cid), cid.len(), l["start"].as_i64().unwrap_or(i64::MIN / 4) - base, l["expire"].as_i64().unwrap_or(i64::MIN / 4) - base])
+                                }).collect()).unwrap_or_default(),
+                                Err(_) => vec![],
+                            };
+                            out.emit(json!({"ev":"listing","case":ci,"status":status,"json_ok":parsed.is_ok(),"json_err":parsed.as_ref().err().map(|e| e.to_string()).unwrap_or_default(),
+                                            "has_leases_array":parsed.as_ref().map(|v| v["leases"].is_array()).unwrap_or(false),
+                                            "entries":entries,"rows":rows_before,"stable":rows_before == rows_after,"tag":step["tag"].as_str().unwrap_or(""),
+                                            "body": if parsed.is_ok() { String::new() } else { text.chars().take(600).collect::<String>() }}));
+                        }
+                        if path == "/metrics" && method == "GET" && status == 200 {
+                            let text = String::from_utf8_lossy(&body).to_string();
+                            out.emit(json!({"ev":"gauges","case":ci,"active":metric(&text, "dhcp_active_leases"),"expired":metric(&text, "dhcp_expired_leases"),
+                                            "expiries":rows_before.iter().map(|r| r[4].clone()).collect::<Vec<_>>(),"t0":t0,"t1":t1,"stable":rows_before == rows_after,"tag":step["tag"].as_str().unwrap_or("")}));
+                        }
+                    }
+                    _ => {}
+                }
+            }
+            let np = {
+                let mut p = PANICS.lock().unwrap();
+                let n = p.len();
+                let first = p.first().cloned().unwrap_or_default();
+                p.clear();
+                (n, first)
+            };
+            out.emit(json!({"ev":"endcase","case":ci,"panics":np.0,"first_panic":np.1}));
+            out.flush();
+        }
+    });
+    let n = out.finish();
+    eprintln!("rig full: {} cases, {} events", cases.len(), n);
+    std::process::exit(0);
+}
+
+#[allow(dead_code)]
+fn unused() {
+    let _ = CLIENT_IF_MAC;
 }
